@@ -114,7 +114,7 @@ def run():
     sl = chk.stage("split function-level", split_level)
     if sl:
         chk.corr("function-level split(positions, population) vs GFO.splitDeal", sl[0], sl[1], {("split",)})
-    il = chk.stage("Initializer function-level", init_level, r, 120 if quick else 1200)
+    il = chk.stage("Initializer function-level", init_level, r, C.T(120, 1200))
     if il:
         n, dis, keys, fails = il
         chk.corr("function-level Initializer with warm_start lists (shuffled keys, duplicates, off-grid values) vs GFO.Model.Init.setPos", n, dis, keys)
